@@ -4,6 +4,8 @@ import GettsimVerif.Props.C04Sim
 #print axioms GV.Simulate.buildFunctions_targets_agree
 #print axioms GV.Simulate.buildFunctions_targets_only
 #print axioms GV.Simulate.simulate_target_indep
+#print axioms GV.Simulate.simulate_subtargets_succeed
+#print axioms GV.Simulate.simulate_target_alone_succeeds
 #print axioms GV.Simulate.simulate_targets_perm_dup
 #print axioms GV.Simulate.simulate_rows
 #print axioms GV.Simulate.C04SimExamples.ok_of_toBool
